@@ -391,6 +391,10 @@ def run(ctx):
     check_registry_builders(ctx, "R9")
     ctx.rule("R10", "format / program selection as a decision table on a model registry (evaluated)", "a module that lacks the requested feature is selected by file name: the caller fails with AttributeError / an unrelated LoadError instead of FileFormatError")
     check_selection_table(ctx, "R10")
+    # "... raises FileFormatError without touching the file system; required attributes are enforced before the output
+    # file is opened": the ordering clause C08 decides (no file-system effect in the dump entry points before selection
+    # and pre-flight are through)
+    ctx.borrow("c08", {"R1": "R11"})
 
 
 DECLARED = {"guaranteed", "ifpresent", "required", "optional"}
